@@ -252,6 +252,8 @@ class ApproximationScheme(object):
                 in_idx = range(start, end)
 
                 if total and sinds is not _full_slice:
+                    # per-element data must follow the selected entries of the variable
+                    data = self._index_approx_data(data, sinds)
                     if vec is None:
                         vec_idx = ValueRepeater(None, sinds.size)
                     else:
@@ -329,6 +331,24 @@ class ApproximationScheme(object):
                 self._jac_scatter = (has_dist_data, sinds, tinds)
         else:
             self._jac_scatter = None
+
+    def _index_approx_data(self, data, inds):
+        """
+        Restrict approximation data to the given indices of the wrt variable.
+
+        Parameters
+        ----------
+        data : object
+            Approximation data as returned by _get_approx_data.
+        inds : ndarray of int
+            Indices (into the flattened variable) of the entries being perturbed.
+
+        Returns
+        -------
+        object
+            Approximation data for the selected entries.
+        """
+        return data
 
     def _colored_column_iter(self, system, colored_approx_groups):
         """
